@@ -1,6 +1,6 @@
 (* C06 at source level: ProofSeed::into_client_header_crypto / into_server_header_crypto of the three
    modules as TRANSLATED FROM src/{vanilla,tbc,wrath}_header/mod.rs on this run. *)
-From WS Require Import lib.Bytes lib.Res lib.Sha1 Consts Steps model.Server model.WorldProof proofs.steps.ApiWorld.
+From WS Require Import lib.Bytes lib.Res lib.Sha1 Consts Steps model.Server model.WorldProof proofs.steps.ApiWorld proofs.steps.Digests.
 From WS Require model.Vanilla model.Tbc model.Wrath.
 Local Open Scope N_scope.
 
@@ -51,7 +51,14 @@ Proof.
   split; [apply wrath_into_client_translated | apply wrath_into_server_translated].
 Qed.
 
+(* the proof value itself, as translated from src/vanilla_header/internal.rs:
+   H(name | 0u32 LE | client seed LE | server seed LE | session key) *)
+Theorem C06_source_proof_value : forall u K ss cs,
+  tr_world_calculate_world_server_proof u K ss cs = Some (lib.Sha1.sha1 (u ++ le32 0 ++ le32 cs ++ le32 ss ++ K)).
+Proof. exact proofs.steps.Digests.calculate_world_server_proof_translated. Qed.
+
 Print Assumptions C06_source_client_vanilla.
+Print Assumptions C06_source_proof_value.
 Print Assumptions C06_source_server_refuses.
 Print Assumptions C06_source_server_accepts_vanilla.
 Print Assumptions C06_source_is_model.
